@@ -159,6 +159,22 @@ class PropertyRun:
         self.mutants_caught = 0
         self.replays_written = []
 
+    def export(self):
+        return dict(total=self.total, violation_lines=self.violation_lines, known_lines=self.known_lines, errors=self.errors,
+                    inconclusive=self.inconclusive, unit_reports=self.unit_reports, twin_runs=self.twin_runs, twin_fail=self.twin_fail,
+                    witness_replays=self.witness_replays, mutants_run=self.mutants_run, mutants_caught=self.mutants_caught,
+                    replays_written=self.replays_written)
+
+    def absorb(self, d):
+        self.total.merge(d["total"])
+        for k in ("violation_lines", "errors", "inconclusive", "unit_reports", "replays_written"):
+            getattr(self, k).extend(d[k])
+        for l in d["known_lines"]:
+            if l not in self.known_lines:
+                self.known_lines.append(l)
+        for k in ("twin_runs", "twin_fail", "witness_replays", "mutants_run", "mutants_caught"):
+            setattr(self, k, getattr(self, k) + d[k])
+
     # -- context management for a unit ----------------------------------------
     def _contexts(self, unit, symbolic=True):
         import contextlib
@@ -374,6 +390,7 @@ class PropertyRun:
                 harness_errors=self.errors,
                 units=self.unit_reports,
                 samples=[s for r in self.unit_reports for s in r.get("samples", [])][:6] or [{"note": "no completed path"}],
+                extra=getattr(self, "extra", None),
                 exhaustive=False,
             ),
         )
@@ -397,6 +414,32 @@ class PropertyRun:
                 print(f"INCONCLUSIVE: {e}", file=sys.stderr)
             return 2
         return 0
+
+
+_PAR_UNITS = None
+_PAR_ARGS = None
+
+
+def _par_task(i):
+    pid, tier, seed = _PAR_ARGS
+    run = PropertyRun(pid, tier, seed)
+    try:
+        run.run_unit(_PAR_UNITS[i])
+    except Exception as e:  # noqa
+        run.errors.append(f"{_PAR_UNITS[i].name}: harness crashed: {type(e).__name__}: {e}\n{traceback.format_exc(limit=-4)}")
+    return run.export()
+
+
+def run_units_parallel(run, units, nproc):
+    """Run many small units concurrently (one process per unit, each single-threaded)."""
+    global _PAR_UNITS, _PAR_ARGS
+    import multiprocessing as mp
+    _PAR_UNITS, _PAR_ARGS = units, (run.pid, run.tier, run.seed)
+    for u in units:
+        u.nproc = 1
+    with mp.get_context("fork").Pool(nproc) as pool:
+        for d in pool.imap(_par_task, range(len(units))):
+            run.absorb(d)
 
 
 def replay_file(path):
@@ -440,10 +483,14 @@ def main(argv):
     mod = importlib.import_module(f"harness.{REGISTRY[a.pid]}")
     run = PropertyRun(a.pid, a.tier, a.seed)
     try:
-        for u in mod.units(a.tier):
-            if a.unit and u.name not in a.unit:
-                continue
-            run.run_unit(u)
+        if hasattr(mod, "pre"):
+            mod.pre(run, a.tier)
+        us = [u for u in mod.units(a.tier) if not a.unit or u.name in a.unit]
+        if getattr(mod, "PARALLEL_UNITS", False) and len(us) > 1:
+            run_units_parallel(run, us, int(os.environ.get("VERIF_NPROC", "0")) or min(16, os.cpu_count() or 1))
+        else:
+            for u in us:
+                run.run_unit(u)
         extra = mod.post(run, a.tier) if hasattr(mod, "post") else ""
     except Exception as e:
         traceback.print_exc()
